@@ -232,10 +232,19 @@ func (p *Processor) ChargingDataUpdate(
 	ue.CULock.Lock()
 	defer ue.CULock.Unlock()
 
+	// Reject an unknown charging session before any credit control is performed
+	cdr, ok := ue.Cdr[chargingSessionId]
+	if !ok || cdr == nil {
+		logger.ChargingdataPostLog.Errorf("Charging session[%s] of CHFUe[%s] not found", chargingSessionId, ueId)
+		problemDetails := &models.ProblemDetails{
+			Status: http.StatusNotFound,
+			Cause:  "CHARGING_DATA_REF_NOT_FOUND",
+		}
+		return nil, problemDetails
+	}
+
 	// Online charging: Rate, Account, Reservation
 	responseBody, partialRecord := p.BuildConvergedChargingDataUpdateResopone(chargingData)
-
-	cdr := ue.Cdr[chargingSessionId]
 
 	if len(ue.Records) > 1 {
 		cdr = ue.Records[len(ue.Records)-1]
@@ -350,9 +359,18 @@ func (p *Processor) ChargingDataRelease(
 	ue.CULock.Lock()
 	defer ue.CULock.Unlock()
 
-	sessionChargingReservation(chargingData)
+	// Reject an unknown charging session before any credit control is performed
+	cdr, ok := ue.Cdr[chargingSessionId]
+	if !ok || cdr == nil {
+		logger.ChargingdataPostLog.Errorf("Charging session[%s] of CHFUe[%s] not found", chargingSessionId, ueId)
+		problemDetails := &models.ProblemDetails{
+			Status: http.StatusNotFound,
+			Cause:  "CHARGING_DATA_REF_NOT_FOUND",
+		}
+		return problemDetails
+	}
 
-	cdr := ue.Cdr[chargingSessionId]
+	sessionChargingReservation(chargingData)
 
 	err := p.UpdateCDR(cdr, chargingData)
 	if err != nil {
